@@ -287,7 +287,11 @@ def worker_main(argv):
         if sc is None:
             rs = run_seed(batch_seed, prop, i)
             try:
-                sc = engine.generate(random.Random(rs), tier)
+                if hasattr(engine, "generate_indexed"):
+                    # engines whose quantifier is an enumerable configuration space walk it by index
+                    sc = engine.generate_indexed(i, random.Random(rs), tier)
+                else:
+                    sc = engine.generate(random.Random(rs), tier)
             except Exception:
                 summ["harness_errors"].append({"index": i, "where": "generate",
                                                "trace": traceback.format_exc()[-1500:]})
